@@ -84,7 +84,14 @@ def hexd_op(pids, algos=None):
                                   "algo": gen.algo_spelling(algos)})
 
 
-REOPEN = st.just({"op": "reopen"})
+REOPEN = st.sampled_from([{"op": "reopen"}, {"op": "reopen"}, {"op": "reopen", "cold": True}])
+# (cold: the module under test is re-executed first, so process-wide in-memory state starts empty - another process)
+
+
+def decoy_op(pids, fmts=("-",)):
+    """store_object(pid, ..) [+ store_metadata] on ANOTHER store of a different algorithm in the same process."""
+    return st.fixed_dictionaries({"op": st.just("decoy"), "pid": st.sampled_from(pids), "fmt": st.sampled_from(list(fmts)),
+                                  "n": st.integers(0, 3)})
 
 
 def weighted(*pairs):
